@@ -1,7 +1,7 @@
 """C01 — elementwise operators: dispatch closure, form/field agreement, kernel normal form vs operator oracle, shape guards."""
 import re
 from collections import defaultdict
-from lib.facts import CallGraph, find, walk, is_node, path_of, render, render_pat, last_seg
+from lib.facts import CallGraph, find, walk, is_node, path_of, render, render_pat, last_seg, strip_refs
 from lib import fxn as X
 from lib.dispatch import dispatchers, value_pat, boxed_structs, user_structs, FORM_ABBR
 from lib.kernel import Kernel, Unrecognised, show, roots_in, root_of, COMMUTATIVE
@@ -536,40 +536,302 @@ def anonymous_pat(p):
     return re.sub(r"\s+", "", render_pat(sub(p)))
 
 
-def operand_forwarding(rep, rule, where, arm_pat, body, callee_rx, label):
-    """in a match arm over a 2-tuple, the call to the dispatcher must receive a value built from the first component first.
-    Operands are identified by the POSITION of the tuple component that binds them; locals computed from an operand inherit its position.
-    (same decision procedure as rules.c14.positional_args; the violation key names the arm by its pattern WITHOUT binding names)"""
-    alts = arm_pat[1] if arm_pat[0] == "por" else [arm_pat]
-    n = 0
-    for alt in alts:
-        if alt[0] != "ptuple" or len(alt[1]) != 2:
+DESCRIPTOR_GETTER = re.compile(r"^(kind|deref_kind|shape|len|nrows|ncols|size|dims|rows|cols|is_\w+)$")
+NOPOS = frozenset()
+UNKNOWN = frozenset({"?"})      # provenance the evaluation cannot attribute to an operand position (closure parameter of an unknown caller, result of a free function fed both operands)
+PURE_WRAPPERS = ("Ok", "Err", "Some", "new", "from", "into", "clone", "drop")
+
+
+class _Scope:
+    """what the locals in scope stand for: env = local -> set of operand positions its value derives from; vecs = locals that ARE the argument vector
+    (`v[i]` with a literal i is operand i); disp = locals that alias the dispatcher; arm = innermost enclosing match alternative over an operand pair"""
+    def __init__(self, env=None, vecs=(), disp=(), arm=None, descr=()):
+        self.env, self.vecs, self.disp, self.arm = dict(env or {}), set(vecs), set(disp), arm
+        self.descr = set(descr)         # locals that hold only a DESCRIPTION of an operand (its kind, shape ..), not its value
+
+    def copy(self):
+        return _Scope(self.env, self.vecs, self.disp, self.arm, self.descr)
+
+
+class OperandFlow:
+    """Scoped abstract evaluation of a function body: which OPERAND POSITION (0 = first, 1 = second) does each argument of each dispatcher call derive from.
+    Positions enter through `<argument vector>[i]` and through the components of a match alternative over a pair; they are inherited by every local bound
+    from an expression that mentions a positioned local - `let`, `let .. else`, `if let` / `while let`, match-arm patterns (component-wise when a tuple is
+    matched against a tuple pattern), `for` patterns and the parameters of a closure handed to a method of a positioned receiver (`x.map(|v| ..)`).
+    Shadowing is respected (a `let` re-binds).  An operand that is only consulted through a descriptor getter (`x.kind()`, `x.shape()` ..) inside a larger
+    expression does not lend its position to the result: `rhs.convert_to(&lhs.kind())` derives from the second operand.
+    Calls to helper functions that receive an operand, the argument vector or the dispatcher are followed (parameters bound to the arguments), two levels deep.
+    Nothing depends on the spelling of a local or on the name of a helper."""
+
+    def __init__(self, callee_rx, resolve=None, max_depth=2):
+        self.rx = callee_rx
+        self.resolve = resolve
+        self.max_depth = max_depth
+        self.sites = []         # (call node, [position set per argument], enclosing pair alternative or None)
+        self.unfollowed = []    # helper calls that receive operands but could not be followed
+
+    # ---- provenance of a value
+    def pos(self, e, sc):
+        return self.pos2(e, sc)[0]
+
+    def pos2(self, e, sc):
+        """(positions, descriptor_only): descriptor_only when every operand mentioned is consulted through a descriptor getter only"""
+        full, filt = set(), set()
+
+        def add(p, desc):
+            full.update(p)
+            if not desc:
+                filt.update(p)
+
+        def go(x, desc):
+            if not isinstance(x, list):
+                return
+            if not is_node(x):
+                for y in x:
+                    go(y, desc)
+                return
+            t = x[0]
+            if t == "path":
+                add(sc.env.get(x[1], NOPOS), desc or x[1] in sc.descr)
+                return
+            if t == "index" and path_of(strip_borrow(strip_refs(x[1]))) in sc.vecs and is_node(x[2]) and x[2][0] == "int":
+                add({int(x[2][1])}, desc)
+                return
+            if t == "mcall" and x[2] in ("get", "get_mut", "get_unchecked") and path_of(strip_borrow(strip_refs(x[1]))) in sc.vecs and len(x[4]) == 1 and is_node(x[4][0]) and x[4][0][0] == "int":
+                add({int(x[4][0][1])}, desc)
+                return
+            if t == "mcall" and DESCRIPTOR_GETTER.match(x[2]) and not x[4]:
+                go(x[1], True)
+                return
+            if t == "macro":
+                for name, p in sc.env.items():
+                    if p and re.search(r"\b%s\b" % re.escape(name), str(x[2])):
+                        add(p, desc)
+                return
+            if t == "call" and path_of(x[1]) and not self.is_dispatcher(x[1], sc):
+                nm = last_seg(path_of(x[1]))
+                if nm not in PURE_WRAPPERS and not nm[:1].isupper() and len({q for a in x[2] for q in self.pos(a, sc)}) >= 2:
+                    add(UNKNOWN, desc)      # a free function fed both operands: which of them its result stands for is not known
+            for y in x[1:]:
+                go(y, desc)
+        go(e, False)
+        return frozenset(filt or full), (not filt and bool(full))
+
+    # ---- binding
+    def bind(self, pat, init, sc, src_scope=None, unknown=False):
+        """bind the names of `pat` to the provenance of `init` (evaluated in src_scope, default sc), component-wise for tuple against tuple"""
+        src = src_scope or sc
+        while is_node(pat) and pat[0] in ("ptype", "pref"):
+            pat = pat[1] if pat[0] == "ptype" else pat[2]
+        if init is not None and is_node(pat) and pat[0] == "ptuple" and is_node(init) and init[0] == "tuple" and len(init[1]) == len(pat[1]):
+            for sp, si in zip(pat[1], init[1]):
+                self.bind(sp, si, sc, src)
+            return
+        if init is not None and is_node(pat) and pat[0] == "pslice" and self.vec_base(init, src) and not any(is_node(x) and x[0] == "prest" for x in pat[1]):
+            # `[a, b] = <argument vector as a slice>`: the i-th element pattern binds operand i
+            for i, sp in enumerate(pat[1]):
+                for b in find(sp, "pident"):
+                    sc.env[b[1]] = frozenset({i})
+                    sc.vecs.discard(b[1]), sc.disp.discard(b[1]), sc.descr.discard(b[1])
+            return
+        p, d = self.pos2(init, src) if init is not None else ((UNKNOWN if unknown else NOPOS), False)
+        is_vec = init is not None and path_of(strip_borrow(strip_refs(init))) in src.vecs
+        is_disp = init is not None and self.is_dispatcher(init, src)
+        for b in find(pat, "pident"):
+            sc.env[b[1]] = p
+            sc.vecs.discard(b[1])
+            sc.disp.discard(b[1])
+            sc.descr.discard(b[1])
+            if d:
+                sc.descr.add(b[1])
+            if is_vec and is_node(pat) and pat[0] == "pident":
+                sc.vecs.add(b[1])
+            if is_disp and is_node(pat) and pat[0] == "pident":
+                sc.disp.add(b[1])
+
+    def vec_base(self, e, sc):
+        """is `e` the argument vector seen as a whole (`&v`, `v.as_slice()`, `&v[..]`, `v.clone()` ..)"""
+        while is_node(e):
+            e = strip_borrow(strip_refs(e))
+            if is_node(e) and e[0] == "mcall" and e[2] in ("as_slice", "as_mut_slice", "to_vec", "deref") and not e[4]:
+                e = e[1]
+            elif is_node(e) and e[0] == "index" and is_node(e[2]) and e[2][0] == "range" and e[2][1] is None and e[2][2] is None:
+                e = e[1]
+            else:
+                break
+        return path_of(e) in sc.vecs if is_node(e) else False
+
+    def is_dispatcher(self, e, sc):
+        p = path_of(strip_refs(e)) if is_node(e) else None
+        return bool(p) and (p in sc.disp or (p not in sc.env and re.search(self.rx, p) is not None))
+
+    # ---- traversal
+    def block(self, stmts, sc, depth):
+        for st in stmts or []:
+            if st[0] == "let":
+                if st[2] is not None:
+                    self.ex(st[2], sc, depth)
+                src = sc.copy()
+                if len(st) > 3 and st[3] is not None:
+                    self.ex(st[3], sc.copy(), depth)
+                self.bind(st[1], st[2], sc, src)
+            elif st[0] == "expr":
+                self.ex(st[1], sc, depth)
+
+    def pair_arm(self, scrut, alt, body, guard, sc, depth):
+        """one alternative `(P0, P1)` of a match over a pair: what P_i binds stands for the i-th component of the scrutinee - the operand whose position the
+        component's provenance gives; when the scrutinee's provenance is unknown (not rooted in an argument vector) the component index IS the position"""
+        sc2 = sc.copy()
+        comps = scrut[1] if (is_node(scrut) and scrut[0] == "tuple" and len(scrut[1]) == 2) else None
+        cp = [self.pos(c, sc) for c in comps] if comps else [NOPOS, NOPOS]
+        if not cp[0] and not cp[1] and sc.arm is None:
+            cp = [frozenset({0}), frozenset({1})]
+        for i, sub in enumerate(alt[1]):
+            for b in find(sub, "pident"):
+                sc2.env[b[1]] = cp[i]
+                sc2.vecs.discard(b[1])
+                sc2.disp.discard(b[1])
+                sc2.descr.discard(b[1])
+        if cp[0] and cp[1]:
+            sc2.arm = alt
+        if guard is not None:
+            self.ex(guard, sc2, depth)
+        self.ex(body, sc2, depth)
+
+    def ex(self, e, sc, depth):
+        if not isinstance(e, list):
+            return
+        if not is_node(e):
+            for y in e:
+                self.ex(y, sc, depth)
+            return
+        t = e[0]
+        if t in ("block", "unsafe"):
+            self.block(e[1], sc.copy(), depth)
+        elif t == "letc":
+            self.ex(e[2], sc, depth)
+            self.bind(e[1], e[2], sc, sc.copy())
+        elif t == "if":
+            sc2 = sc.copy()
+            self.ex(e[1], sc2, depth)            # an `if let` binds for the then-branch only
+            self.block(e[2], sc2, depth)
+            if e[3] is not None:
+                self.ex(e[3], sc.copy(), depth)
+        elif t == "while":
+            sc2 = sc.copy()
+            self.ex(e[1], sc2, depth)
+            self.block(e[2], sc2, depth)
+        elif t == "loop":
+            self.block(e[1], sc.copy(), depth)
+        elif t == "for":
+            self.ex(e[2], sc, depth)
+            sc2 = sc.copy()
+            self.bind(e[1], e[2], sc2, sc)
+            self.block(e[3], sc2, depth)
+        elif t == "match":
+            self.ex(e[1], sc, depth)
+            for arm in e[2]:
+                alts = arm[0][1] if arm[0][0] == "por" else [arm[0]]
+                if any(a[0] == "ptuple" and len(a[1]) == 2 for a in alts):
+                    for a in alts:
+                        if a[0] == "ptuple" and len(a[1]) == 2:
+                            self.pair_arm(e[1], a, arm[2], arm[1], sc, depth)
+                else:
+                    sc2 = sc.copy()
+                    self.bind(arm[0], e[1], sc2, sc)
+                    if arm[1] is not None:
+                        self.ex(arm[1], sc2, depth)
+                    self.ex(arm[2], sc2, depth)
+        elif t == "closure":
+            sc2 = sc.copy()
+            for p in e[1]:
+                self.bind(p, None, sc2, unknown=True)
+            self.ex(e[2], sc2, depth)
+        elif t == "mcall":
+            self.ex(e[1], sc, depth)
+            for a in e[4]:
+                if is_node(a) and a[0] == "closure":
+                    sc2 = sc.copy()
+                    for p in a[1]:
+                        self.bind(p, e[1], sc2, sc)        # `recv.map(|v| ..)`: v is (part of) recv
+                    self.ex(a[2], sc2, depth)
+                else:
+                    self.ex(a, sc, depth)
+        elif t == "call":
+            if self.is_dispatcher(e[1], sc) and len(e[2]) == 2:
+                self.sites.append((e, [self.pos(a, sc) for a in e[2]], sc.arm))
+            elif path_of(e[1]):
+                self.follow(e, sc, depth)
+            else:
+                self.ex(e[1], sc, depth)
+            self.ex(e[2], sc, depth)
+        elif t == "macro" or t == "item":
+            return
+        else:
+            for y in e[1:]:
+                self.ex(y, sc, depth)
+
+    def follow(self, call, sc, depth):
+        """helper(args): evaluate the helper's body with its parameters bound to the arguments (operand positions, argument vector, dispatcher)"""
+        args = call[2]
+        relevant = [bool(self.pos(a, sc)) or path_of(strip_borrow(strip_refs(a))) in sc.vecs or self.is_dispatcher(a, sc) for a in args]
+        if not any(relevant):
+            return
+        name = last_seg(path_of(call[1]))
+        if name in PURE_WRAPPERS or name[:1].isupper():
+            return
+        it = self.resolve(name) if (self.resolve and depth < self.max_depth) else None
+        if it is None:
+            self.unfollowed.append(render(call)[:80])
+            return
+        inputs = [pt for pt in (it.get("sig") or {}).get("inputs", []) if is_node(pt[0])]
+        if len(inputs) != len(args):
+            self.unfollowed.append(render(call)[:80])
+            return
+        sc2 = _Scope(arm=sc.arm)
+        for (pat, _ty), a in zip(inputs, args):
+            self.bind(pat, a, sc2, sc)
+        self.block(it["body"], sc2, depth + 1)
+
+
+def fn_resolver(F, crates):
+    """last path segment -> the unique free function of that name in the given crates (None when absent or ambiguous)"""
+    idx = defaultdict(list)
+    for c in crates:
+        try:
+            items = F.syn(c)
+        except (IOError, OSError):
             continue
-        pos = {}
-        for i, comp in enumerate(alt[1]):
-            for b in find(comp, "pident"):
-                pos[b[1]] = i
-        for node in list(find(body, "letc")) + [l for l in find(body, "let") if len(l) == 4]:
-            init = node[2]
-            if init is None:
-                continue
-            names = [x[1] for x in find(init, "path") if x[1] in pos]
-            if names:
-                for b in find(node[1], "pident"):
-                    pos.setdefault(b[1], pos[names[0]])
-        for c in find(body, "call"):
-            p = path_of(c[1])
-            if not p or not re.search(callee_rx, p) or len(c[2]) != 2:
-                continue
-            n += 1
-            got = []
-            for a in c[2]:
-                names = [x[1] for x in find(a, "path") if x[1] in pos]
-                got.append({pos[x] for x in names})
-            ok = got[0] == {0} and got[1] == {1}
-            rep.check(ok, rule, "%s:%s" % (label, "operands-in-order") if ok else "%s:operands-swapped:%s" % (label, anonymous_pat(alt)[:60]),
-                      "%s: in the arm `%s` the dispatcher call `%s` receives its operands in positions %s instead of (first, second): the operator is applied to swapped operands for this storage-form combination" % (
-                          label, render_pat(alt)[:100], render(c)[:90], [sorted(g) for g in got]), where)
+        for it in items:
+            if it["k"] == "fn" and it.get("body"):
+                idx[it["name"]].append(it)
+    return lambda name: idx[name][0] if len(idx.get(name, ())) == 1 else None
+
+
+def operand_forwarding(rep, rule, where, method_item, callee_rx, label, resolve=None):
+    """every call of the dispatcher in a native compiler's `compile` must receive a value derived from the FIRST operand first and one derived from the
+    SECOND operand second (OperandFlow: positions by provenance from the argument vector / the components of the match over the operand pair).
+    The violation key names the enclosing match alternative by its pattern WITHOUT binding names; returns the number of call sites decided."""
+    flow = OperandFlow(callee_rx, resolve)
+    sc = _Scope(vecs=params_of_type(method_item, r"^&?(mut)?(Vec<Value>|\[Value\])$"))
+    flow.block(method_item["body"], sc, 0)
+    n = 0
+    for c, got, arm in flow.sites:
+        if arm is None and not got[0] and not got[1]:
+            # a call outside any match over the operand pair whose arguments are not rooted in the argument vector: no position to compare with
+            rep.note("undecided", "%s: dispatcher call `%s` outside a match over the operand pair, arguments of unknown provenance" % (label, render(c)[:80]))
+            continue
+        if any("?" in g for g in got):
+            rep.note("undecided", "%s: dispatcher call `%s`: an argument comes out of a closure parameter or a function fed both operands; its operand position is not known" % (label, render(c)[:80]))
+            continue
+        n += 1
+        ok = got[0] == {0} and got[1] == {1}
+        armtxt = anonymous_pat(arm)[:60] if arm is not None else "direct"
+        rep.check(ok, rule, "%s:%s" % (label, "operands-in-order") if ok else "%s:operands-swapped:%s" % (label, armtxt),
+                  "%s: in the arm `%s` the dispatcher call `%s` receives its operands in positions %s instead of (first, second): the operator is applied to swapped operands for this storage-form combination" % (
+                      label, render_pat(arm)[:100] if arm is not None else "(no match arm: operands taken from the argument vector)", render(c)[:90], [sorted(g) for g in got]), where)
+    for u in sorted(set(flow.unfollowed)):
+        rep.note("undecided", "%s: operands handed to `%s`, which is not a function whose body could be followed" % (label, u))
     return n
 
 
@@ -741,6 +1003,7 @@ def run(F, rep, tier):
     rep.rule("C01-R6", "NativeFunctionCompiler::compile hands (first, second) operand to the dispatcher in that order in every arm (non-commutative operators)")
     npos_total = 0
     done = set()
+    resolvers = {}
     for var, op, nfc, dkey in families:
         if op in COMMUTATIVE or op == "xor" or nfc in done:
             continue
@@ -748,9 +1011,9 @@ def run(F, rep, tier):
         crate = dkey[0] + ".lib"
         for it in F.syn(crate):
             if it["k"] == "method" and it["name"] == "compile" and it["trait"] and last_seg(it["trait"]) == "NativeFunctionCompiler" and X.type_head(it["self"]) == nfc:
-                for mt in find(it["body"], "match"):
-                    for arm in mt[2]:
-                        npos_total += operand_forwarding(rep, "C01-R6", "%s::compile (%s)" % (nfc, crate), arm[0], arm[2], r"_fxn$", "%s::compile" % nfc)
+                if crate not in resolvers:
+                    resolvers[crate] = fn_resolver(F, [crate, "mech_core.lib"])
+                npos_total += operand_forwarding(rep, "C01-R6", "%s::compile (%s)" % (nfc, crate), it, r"_fxn$", "%s::compile" % nfc, resolve=resolvers[crate])
     rep.floor("C01-R6", "operand-forwarding arms in non-commutative operator compilers", npos_total, 20)
 
     # ---- unary operators (factor): Negate / Not
